@@ -184,7 +184,7 @@ theorem refines_flush (g : Ghost) (s : State) (h : Refines g s) : Refines (gFlus
     simp only [hl, tagged, retag_append, retag_tag, tag_append, tag_nil, List.append_nil]
     simp
 
-theorem refines_rotate (g : Ghost) (s : State) (h : Refines g s) (hne : s.cur ≠ []) :
+theorem refines_rotate (g : Ghost) (s : State) (h : Refines g s) (_hne : s.cur ≠ []) :
     Refines { g with log := retag .cur .rot (g.log.filter (fun x => x.2 ≠ .rot)) } { s with rot := s.cur, cur := [] } := by
   obtain ⟨hl, hc⟩ := h
   refine ⟨?_, hc⟩
